@@ -99,7 +99,8 @@ ProcDom     == [op |-> OpC, wrapper |-> WrapperPtrC, auth |-> AuthC, ovr |-> Ovr
 EndpointC   == {"bd", "uni"}
 MethodC     == {"POST", "GET", "PUT", "HEAD"}
 PathC       == {"exact", "slash", "unknown"}
-BodyC       == {"exact", "empty", "len32", "garbage", "truncated", "huge", "nolength", "lying_longer", "lying_shorter"}
+\* lying_absurd: Content-Length 2^63-1 in front of an ordinary body (the header alone must never size an allocation)
+BodyC       == {"exact", "empty", "len32", "garbage", "truncated", "huge", "nolength", "lying_longer", "lying_absurd", "lying_shorter"}
 XffC        == {"absent", "v4", "v6", "garbage", "empty", "list", "listgarbage", "huge", "twoheaders"}
 ClientConfC == {"equal", "newer", "older", "absent"}
 HttpDom     == [endpoint |-> EndpointC, method |-> MethodC, path |-> PathC, body |-> BodyC, xff |-> XffC,
@@ -227,7 +228,7 @@ V4Attempt(r)    == HasPayload(r) /\ r.v4 = "true" /\ r.regaddr \in {"len4", "len
 V6Attempt(r)    == HasPayload(r) /\ r.v6 = "true"
 \* the HTTP envelope lets the handler reach the registration logic
 HttpEnvelopeOK(r) == r.method = "POST" /\ r.path = "exact" /\ r.body \in {"exact", "huge"}
-HttpEnvelopeBad(r) == r.method # "POST" \/ r.path # "exact" \/ r.body \in {"empty", "len32", "garbage", "truncated", "nolength", "lying_longer"}
+HttpEnvelopeBad(r) == r.method # "POST" \/ r.path # "exact" \/ r.body \in {"empty", "len32", "garbage", "truncated", "nolength", "lying_longer", "lying_absurd"}
 \* the DNS envelope lets the responder reach decryption / the registrar
 DnsEnvelopeOK(r) == /\ r.qr = "query" /\ r.opcode = "query" /\ r.qd = "one" /\ r.opt = "one" /\ r.optver = "v0"
                     /\ r.optsize \in {"s4096", "s1232", "s65535"} /\ r.suffix \in {"right", "mixedcase"}
